@@ -942,22 +942,14 @@ def _only(f, kinds, required_prefixes, allowed_prefixes=()):
 
 _ANYKIND = ("rejected", "columns", "affinity", "without-rowid")
 
+# Matchers exist only for the findings that are still open.  The minimal statements of the repaired ones
+# (C07-01, -04, -05, -06, -08, -10, -11, -12, -14, -15) stay in corpus/C07: if one of them fails again nothing here
+# matches it and the run reports a VIOLATION.
 MATCHERS = {
-    # single tab / CR / FF / newline (or CR LF) between tokens
-    "c07_single_whitespace": lambda f: _only(f, _ANYKIND, ["ws1:", "wsrun:"][:1], ["ws1:", "wsrun:"]) or _only(f, _ANYKIND, ["wsrun:"], ["ws1:"]),
     "c07_doubled_quote": lambda f: _only(f, _ANYKIND, ["ident:doubled-quote"]) or _only(f, _ANYKIND, ["table-ident:doubled-quote"]),
     "c07_strict": lambda f: _only(f, ("rejected",), ["trailer:strict"]),
-    "c07_null_generated": lambda f: _only(f, ("affinity", "rejected"), ["cons:null"], ["cons:generated"]) or _only(f, ("affinity", "rejected"), ["cons:generated"], ["cons:null"]),
-    "c07_two_comments_after_comma": lambda f: _only(f, _ANYKIND, ["cmt2:before-"], ["cmt:", "cmtonly:", "cmtadj:"]),
-    "c07_comment_before_table_constraint": lambda f: _only(f, ("rejected",), ["cmt:before-tc"], ["cmt2:before-tc", "cmtonly:before-tc", "cmtadj:before-tc", "ws1:before-tc", "wsrun:before-tc"]),
     "c07_slash_star_slash": lambda f: _only(f, _ANYKIND, ["cmt:slash-star-slash"], ["cmt:", "cmtonly:", "cmtadj:", "cons:null", "cons:generated", "trailer:strict"]),
-    "c07_comment_adjacent": lambda f: _only(f, _ANYKIND, ["cmtadj:"], ["cmt:", "cmtonly:"]) and not any(t.startswith(("cmt:slash-star-slash", "cmt:before-tc")) for t in _tags(f)),
     "c07_slash_dashdash_in_expr": lambda f: (_only(f, ("rejected",), ["expr:slash"], ["expr:"]) or _only(f, ("rejected",), ["expr:dashdash"], ["expr:"])
                                              or _only(f, ("rejected",), ["ident:comment-chars"]) or _only(f, ("rejected",), ["table-ident:comment-chars"])),
-    "c07_bracket_ident": lambda f: _only(f, ("rejected", "columns"), ["ident:quote-char-in-bracket"], ["ident:paren"]) or _only(f, ("rejected", "columns"), ["ident:paren"], ["ident:quote-char-in-bracket"]),
-    "c07_one_char_type": lambda f: _only(f, ("rejected",), ["type:one-char"]),
-    "c07_not_specified": lambda f: _only(f, ("affinity", "affinity-fn"), ["type:NOT_SPECIFIED"]),
     "c07_ident_whitespace": lambda f: _only(f, _ANYKIND, ["ident:whitespace"]) or _only(f, _ANYKIND, ["table-ident:whitespace"]),
-    "c07_no_space_after_type_args": lambda f: _only(f, ("affinity", "rejected", "columns"), ["nogap:after-type-args"], ["nogap:before-constraint"]),
-    "c07_timeline_rereport": lambda f: f.get("kind") == "timeline" and _tags(f) == {"timeline:removed-entry-reported-again"},
 }
